@@ -74,9 +74,9 @@ class Panoptica_Aggregator:
         out_file_path = str(output_file)
 
         # extension
-        if "." in out_file_path:
-            # extension exists
-            extension = out_file_path.split(".")[-1]
+        if "." in Path(out_file_path).name:
+            # extension exists (look at the file name only, directories may contain dots)
+            extension = Path(out_file_path).name.split(".")[-1]
             assert (
                 extension == "tsv"
             ), f"You gave the extension {extension}, but currently only .tsv is supported. Either delete it or give .tsv as extension"
